@@ -17,7 +17,7 @@ Definition response_eqb (a b : response) : bool :=
   | _, _ => false
   end.
 
-(* the same URL up to percent-decoding (only used for requests outside [req_dom]) *)
+(* the same URL up to percent-decoding (only used for requests outside [req_dom0]) *)
 Definition loc_equiv (a b : str) : bool :=
   match unescape_path a, unescape_path b with
   | Some x, Some y => beq x y
@@ -40,19 +40,19 @@ Inductive case :=
 | CCode (opt : str) (impl : Z)
 (* HTTPProxy.ServeHTTP over the real Table.Lookup: [cands] = the targets Table.lookup
    yields per host in visiting order; observables: response and upstream hit count *)
-| CServe (cands : list (option target)) (q : request) (impl : response) (hits : nat)
-(* two requests for the same redirect target, forced schedule Lookup A, Lookup B,
-   serve A, serve B on the real HTTPProxy *)
-| CSched (t : target) (qa qb : request) (la lb : response)
+| CServe (cands : list (option target)) (wire : str) (q : request) (impl : response) (hits : nat)
 (* a request with its header fields sent over a socket to a real http.Server running
    HTTPProxy.ServeHTTP; [hits] = calls of the upstream RoundTripper, [contacts] = connections
    accepted by the listener that stands behind the redirect template's host:port *)
-| CServeH (hs : headers) (cands : list (option target)) (host path rawpath query : str) (tls : bool)
+| CServeH (hs : headers) (cands : list (option target)) (host wire path rawpath query : str) (tls : bool)
           (impl : response) (hits contacts : nat)
+(* 2-4 simultaneous requests on the real HTTPProxy, forced into the interleaving [sched] of their
+   Lookup and serve steps; [impl]: the responses in the order in which they were sent *)
+| CSched (reqs : list (request * str * list (option target))) (sched : list action) (impl : list (nat * response))
 (* a HISTORY of requests served one after the other by one HTTPProxy over ONE table object
    (so the same *route.Target answers several requests): per request the candidates of
    Table.lookup in visiting order, the response and the upstream hit count *)
-| CHistory (steps : list (request * list (option target) * response * nat))
+| CHistory (steps : list (request * str * list (option target) * response * nat))
 (* Target.BuildRedirectURL called repeatedly on ONE target object: RedirectURL.String() after each call *)
 | CBuildHistory (t : target) (steps : list (request * str)).
 
@@ -63,68 +63,96 @@ Fixpoint list_all2 {A B} (f : A -> B -> bool) (a : list A) (b : list B) : bool :
   | _, _ => false
   end.
 
-(* no finding region is left: every finding of C13 has been repaired in /repo (see
-   known_findings/C13.json), so every disagreement and every spec failure is a violation *)
+(* THE LOCATION CLAUSE, judged against the specification written on the request line
+   ([expected_location], independent of the model's Path/RawPath bookkeeping):
+   - on the domain of C13_location_spec / C13_response_location: the exact text;
+   - in finding region 6 (strip matches only after decoding, F-C13-6): the exact text of
+     [expected_location_dec] (strip applies to the decoded path, the rest stays as written);
+   - for a documented template and a request outside [req_dom0] (raw non-ASCII bytes, encoded
+     ! ' ( ) * [ ], a host that needs escaping): the same URL up to percent-decoding.
+   Result: (spec holds, region). *)
+Definition loc_spec (t : target) (wire : str) (q : request) (loc : str) : bool * option N :=
+  if tmpl_dom t && req_dom t wire q then (beq loc (expected_location t wire q), None)
+  else if strip_decoded_only t wire q       (* region 6 is syntactic: the strip prefix is there only after decoding *)
+       then (if tmpl_dom t && req_dom0 wire q then beq loc (expected_location_dec t wire q) else true, Some 6)
+  else if tmpl_dom t && strip_consistent t wire q then (loc_equiv loc (expected_location t wire q), None)
+  else (true, None).
+
+(* who answers and how (the reference host loop, status, proxy target), leaving the text of
+   the Location to [loc_spec] *)
+Definition answer_kind_eqb (a b : response) : bool :=
+  match a, b with
+  | RRedirect c _, RRedirect c' _ => (c =? c')%Z
+  | _, _ => response_eqb a b
+  end.
+Definition response_spec (q : request) (wire : str) (cands : list (option target)) (impl : response) : bool * option N :=
+  let kind := answer_kind_eqb impl (ref_response q cands)
+              && match impl with RRedirect c _ => code_ok c | RBadCode _ => false | _ => true end in
+  match impl, ref_lookup q cands with
+  | RRedirect _ loc, Some t => let '(ok, reg) := loc_spec t wire q loc in (kind && ok, reg)
+  | _, _ => (kind, None)
+  end.
+Definition first_region (l : list (option N)) : option N :=
+  fold_right (fun o acc => match o with Some k => Some k | None => acc end) None l.
+
 Definition check_case (c : case) : N :=
   match c with
   | CBuild t wire q impl impl_str =>
       let m := build_redirect_url t q in
       let same := url_eqb impl m && beq impl_str (url_string m)
                   && opt_pair_eqb (set_path wire) (Some (q_path q, q_rawpath q)) in
-      let dom := tmpl_dom t && req_dom t wire q in
-      (* on the domain of C13_location_spec: the exact text; for a documented template and a
-         request outside [req_dom] (raw non-ASCII bytes, ! ' ( ) * [ ] , a host that needs
-         escaping): the same URL up to percent-decoding *)
-      let weak_dom := tmpl_dom t && Bool.eqb (has_prefix (q_path q) (t_strip t)) (has_prefix wire (t_strip t)) in
-      let spec := if dom then beq impl_str (expected_location t wire q)
-                  else if weak_dom then loc_equiv impl_str (expected_location t wire q) else true in
-      let nontriv := dom && match path_pat t with Some _ => true | None => false end in
-      verdict same spec None nontriv
+      let '(spec, region) := loc_spec t wire q impl_str in
+      let nontriv := tmpl_dom t && req_dom t wire q && match path_pat t with Some _ => true | None => false end in
+      verdict same spec region nontriv
   | CCode opt impl =>
       let same := (impl =? redirect_code opt)%Z in
       let three := match opt with [51; a; b] => is_digit a && is_digit b | _ => false end in
       let spec := ((impl =? 0)%Z || code_ok impl)
                   && (if three then (impl =? digits_val 0%Z opt)%Z else true) in
       verdict same spec None (negb (impl =? 0)%Z)
-  | CServe cands q impl hits =>
+  | CServe cands wire q impl hits =>
       let m := handle q cands in
-      let same := response_eqb impl m && Nat.eqb hits (upstream_calls m) in
-      let spec := response_eqb impl (ref_response q cands)
-                  && Nat.eqb hits (match impl with RProxy _ => 1 | _ => 0 end)
-                  && match impl with RRedirect c _ => code_ok c | RBadCode _ => false | _ => true end in
+      let same := response_eqb impl m && Nat.eqb hits (upstream_calls m)
+                  && opt_pair_eqb (set_path wire) (Some (q_path q, q_rawpath q)) in
+      let '(rs, region) := response_spec q wire cands impl in
+      let spec := rs && Nat.eqb hits (match impl with RProxy _ => 1 | _ => 0 end) in
       let nontriv := match m with RRedirect _ _ => true | _ => Nat.ltb 1 (length cands) end in
-      verdict same spec None nontriv
-  | CServeH hs cands host path rawpath query tls impl hits contacts =>
+      verdict same spec region nontriv
+  | CServeH hs cands host wire path rawpath query tls impl hits contacts =>
+      let q := request_of hs host path rawpath query tls in
       let m := handle_full hs host path rawpath query tls cands in
-      let same := response_eqb impl m && Nat.eqb (hits + contacts) (upstream_calls m) in
+      let same := response_eqb impl m && Nat.eqb (hits + contacts) (upstream_calls m)
+                  && opt_pair_eqb (set_path wire) (Some (path, rawpath)) in
       (* "no upstream is contacted" as an observed fact: neither the transport nor the listener
          behind the template's host saw anything unless the answer is a proxied one *)
-      let spec := response_eqb impl (ref_response (request_of hs host path rawpath query tls) cands)
-                  && match impl with RProxy _ => true | _ => Nat.eqb (hits + contacts) 0 end
-                  && match impl with RRedirect c _ => code_ok c | RBadCode _ => false | _ => true end in
-      verdict same spec None (match m with RRedirect _ _ => negb (is_nil hs) | _ => false end)
-  | CSched t qa qb la lb =>
-      let reqs := [(qa, [Some t]); (qb, [Some t])] in
-      let w := run_sched reqs [ALookup 0; ALookup 1; AServe 0; AServe 1] world0 in
-      let same := match w_out w with
-                  | [(1%nat, mb); (0%nat, ma)] => response_eqb la ma && response_eqb lb mb
-                  | _ => false
-                  end in
+      let '(rs, region) := response_spec q wire cands impl in
+      let spec := rs && match impl with RProxy _ => true | _ => Nat.eqb (hits + contacts) 0 end in
+      verdict same spec region (match m with RRedirect _ _ => negb (is_nil hs) | _ => false end)
+  | CSched reqs sched impl =>
+      let mreqs := map (fun r => match r with (q, _, cands) => (q, cands) end) reqs in
+      let w := run_sched mreqs sched world0 in
+      let same := list_all2 (fun a b => Nat.eqb (fst a) (fst b) && response_eqb (snd a) (snd b)) impl (rev (w_out w)) in
       (* C13_every_schedule_own: each request receives its own answer *)
-      let own_a := ref_response qa [Some t] in
-      let own_b := ref_response qb [Some t] in
-      let spec := response_eqb la own_a && response_eqb lb own_b in
-      verdict same spec None (negb (response_eqb own_a own_b))
+      let judged := map (fun ir => match nth_error reqs (fst ir) with
+                                   | Some (q, wire, cands) => response_spec q wire cands (snd ir)
+                                   | None => (false, None)
+                                   end) impl in
+      let spec := forallb fst judged in
+      verdict same spec (first_region (map snd judged)) (Nat.ltb 1 (length impl))
   | CHistory steps =>
-      let impls := map (fun s => match s with (_, _, resp, _) => resp end) steps in
-      let hits_ok := forallb (fun s => match s with (_, _, resp, h) => Nat.eqb h (upstream_calls resp) end) steps in
-      let model := map (fun s => match s with (q, cands, _, _) => handle q cands end) steps in
+      let impls := map (fun s => match s with (_, _, _, resp, _) => resp end) steps in
+      let hits_ok := forallb (fun s => match s with (_, _, _, resp, h) => Nat.eqb h (upstream_calls resp) end) steps in
+      let model := map (fun s => match s with (q, _, cands, _, _) => handle q cands end) steps in
       let same := list_all2 response_eqb impls model && hits_ok in
       (* every answer of a history is the reference answer of its own request *)
-      let owns := map (fun s => match s with (q, cands, _, _) => ref_response q cands end) steps in
-      let spec := list_all2 response_eqb impls owns && hits_ok in
-      verdict same spec None (Nat.ltb 1 (length steps))
+      let judged := map (fun s => match s with (q, wire, cands, resp, _) => response_spec q wire cands resp end) steps in
+      let spec := forallb fst judged && hits_ok in
+      verdict same spec (first_region (map snd judged)) (Nat.ltb 1 (length steps))
   | CBuildHistory t steps =>
+      (* correspondence only: the text of each Location is judged by the CBuild cases *)
       let ok := forallb (fun s => match s with (q, impl_str) => beq impl_str (url_string (build_redirect_url t q)) end) steps in
-      verdict ok ok None (Nat.ltb 1 (length steps))
+      (* region 6 without the request line: RawPath, when present, is the path as written *)
+      let r6 := existsb (fun s => match s with (q, _) =>
+                           negb (is_nil (q_rawpath q)) && strip_decoded_only t (q_rawpath q) q end) steps in
+      verdict ok true (if r6 then Some 6 else None) (Nat.ltb 1 (length steps))
   end.
